@@ -1,5 +1,7 @@
 package simrt
+
 import "testing"
+
 func TestCleanNoRace(t *testing.T) {
 	for seed := uint64(1); seed < 40; seed++ {
 		runOnce(&SchedConfig{Strategy: StratRW, RWSeed: seed, RWMeanGap: 7}, false)
